@@ -167,6 +167,51 @@ def crash_check(rec, old_state, new_state, bad, trace):
             bad.append(('crash-file-corrupt', "%s: wallet.json (%d bytes) cannot be loaded" % (where, len(data)), trace))
         elif p not in (old_state, new_state):
             bad.append(('crash-file-mixed', "%s: wallet.json is neither the complete previous nor the complete new wallet" % where, trace))
+        else:
+            # life goes on after the crash: the process restarts on exactly these files (a left-over side file included),
+            # loads the wallet and saves it again - the file must then hold that wallet
+            post_crash_save(rec, view, p, where, bad, trace)
+
+
+def post_crash_save(rec, view, state, where, bad, trace):
+    from skepticoin import wallet as W
+    keep = {}
+    for fn in rec.watch:
+        try:
+            with open(fn, 'rb') as f:
+                keep[fn] = f.read()
+        except FileNotFoundError:
+            keep[fn] = None
+    was = rec.active
+    rec.active = False
+    try:
+        for fn, data in view.items():
+            if data is None:
+                if os.path.exists(fn):
+                    os.remove(fn)
+            else:
+                with open(fn, 'wb') as f:
+                    f.write(data)
+        try:
+            with open('wallet.json') as f:
+                w = W.Wallet.load(f)
+            W.save_wallet(w)
+            txt = file_text()
+            p2 = parse_saved(txt) if txt is not None else None
+        except Exception as e:
+            p2 = 'raised %r' % (e,)
+        if p2 != state:
+            bad.append(('save-after-crash-corrupts-file', "%s, then restart, load and save again: wallet.json %s" % (
+                where, "cannot be loaded" if p2 is None else ("raises: " + p2 if isinstance(p2, str) else "holds another wallet")), trace))
+    finally:
+        for fn, data in keep.items():
+            if data is None:
+                if os.path.exists(fn):
+                    os.remove(fn)
+            else:
+                with open(fn, 'wb') as f:
+                    f.write(data)
+        rec.active = was
 
 
 def rebuild(trace, rec, check_crash):
